@@ -1,3 +1,457 @@
-"""placeholder: symbolic paths (filled in with the FS model)"""
-class SymPath:  # replaced below when the FS model is built
-    pass
+"""Symbolic file system (DESIGN §5.5).
+
+State: path (concrete string) -> Dir | File(parts).  File contents are *abstract*: a list of parts
+    ("byte", value)        one byte written with file.write(int.to_bytes(...))   value: python int / SNum / SBool
+    ("bytes", tag, obj)    an opaque byte string standing for `obj` (e.g. DataChunkInfo.to_bytes())
+    ("arr", array)         ndarray.tofile(f) of an array proxy (or concrete numpy array)
+    ("pickle", obj)        pickle.dump(obj, f)
+    ("text", s)            text written through a text-mode file (s may be a yaml document proxy)
+    ("partial", part)      a strict prefix of `part` (a writer that died in the middle; only produced by crash states)
+A file that is open for writing accumulates `pending` parts in the python-level buffer; they reach the OS at
+flush()/close(), or immediately for ndarray.tofile (numpy flushes the buffer first and writes through the descriptor).
+
+Every operation that changes the OS-visible state is appended to `effects` and followed by a call of the crash hook
+(if installed): the hook receives a *snapshot of the OS-visible state* and decides the crash obligation.
+Effect granularity (= the property's "between two file-system operations"): create/truncate, each write that reaches
+the OS, mkdir, unlink, rmdir, rename.  rmtree(d) is expanded into unlink/rmdir effects, children before parents, in
+an arbitrary but fixed order.
+"""
+from __future__ import annotations
+
+import copy
+import posixpath
+
+from .core import Ctx, SNum, SBool, Unsupported, is_sym
+
+
+class Dir:
+    def __repr__(self):
+        return "Dir"
+
+
+class File:
+    def __init__(self, parts=None):
+        self.parts = list(parts or [])
+
+    def copy(self):
+        return File(list(self.parts))
+
+    def __repr__(self):
+        return f"File({[p[0] for p in self.parts]})"
+
+
+DIR = Dir()
+
+
+class SymFS:
+    def __init__(self, ctx):
+        self.ctx = ctx
+        self.nodes = {"/": DIR}
+        self.effects = []
+        self.crash_hook = None
+        self.open_files = []
+        self.reads = []
+
+    # -- state --------------------------------------------------------------------------------------------
+    def snapshot(self):
+        """OS-visible state (pending buffers of open writers are *not* part of it)"""
+        return {p: (n if n is DIR else n.copy()) for p, n in self.nodes.items()}
+
+    def put_dir(self, path):
+        path = norm(path)
+        parts = path.strip("/").split("/")
+        cur = ""
+        for p in parts:
+            cur += "/" + p
+            self.nodes.setdefault(cur, DIR)
+
+    def put_file(self, path, parts):
+        path = norm(path)
+        self.put_dir(posixpath.dirname(path))
+        self.nodes[path] = File(parts)
+
+    def exists(self, path):
+        return norm(path) in self.nodes
+
+    def is_dir(self, path):
+        return self.nodes.get(norm(path)) is DIR
+
+    def children(self, path):
+        path = norm(path)
+        pre = path.rstrip("/") + "/"
+        return sorted(p for p in self.nodes if p.startswith(pre) and "/" not in p[len(pre):])
+
+    def _effect(self, kind, path, detail=None):
+        self.effects.append((kind, path, detail))
+        if self.crash_hook is not None:
+            self.crash_hook(self, len(self.effects), (kind, path, detail))
+
+    # -- operations ---------------------------------------------------------------------------------------
+    def mkdir(self, path, parents=False, exist_ok=False):
+        path = norm(path)
+        if path in self.nodes:
+            if exist_ok and self.nodes[path] is DIR:
+                return
+            raise FileExistsError(path)
+        parent = posixpath.dirname(path)
+        if parent not in self.nodes:
+            if not parents:
+                raise FileNotFoundError(parent)
+            self.mkdir(parent, parents=True, exist_ok=True)
+        elif self.nodes[parent] is not DIR:
+            raise NotADirectoryError(parent)
+        self.nodes[path] = DIR
+        self._effect("mkdir", path)
+
+    def unlink(self, path):
+        path = norm(path)
+        if path not in self.nodes or self.nodes[path] is DIR:
+            raise FileNotFoundError(path)
+        del self.nodes[path]
+        self._effect("unlink", path)
+
+    def rmdir(self, path):
+        path = norm(path)
+        if self.children(path):
+            raise OSError("directory not empty: " + path)
+        del self.nodes[path]
+        self._effect("rmdir", path)
+
+    def rename(self, src, dst):
+        """os.replace: atomic on POSIX - one effect"""
+        src, dst = norm(src), norm(dst)
+        if src not in self.nodes:
+            raise FileNotFoundError(src)
+        if self.nodes.get(dst) is DIR:
+            raise IsADirectoryError(dst)
+        self.nodes[dst] = self.nodes.pop(src)
+        self._effect("rename", dst, src)
+
+    def rmtree(self, path):
+        path = norm(str(path))
+        if path not in self.nodes:
+            raise FileNotFoundError(path)
+        if self.nodes[path] is not DIR:
+            raise NotADirectoryError(path)
+        for c in self.children(path):
+            if self.nodes[c] is DIR:
+                self.rmtree(c)
+            else:
+                self.unlink(c)
+        self.rmdir(path)
+
+    def open(self, path, mode="r"):
+        path = norm(str(path))
+        binary = "b" in mode
+        if "r" in mode and "+" not in mode:
+            n = self.nodes.get(path)
+            if n is None:
+                raise FileNotFoundError(path)
+            if n is DIR:
+                raise IsADirectoryError(path)
+            self.reads.append(path)
+            return SymFile(self, path, mode, list(n.parts))
+        parent = posixpath.dirname(path)
+        if self.nodes.get(parent) is not DIR:
+            raise FileNotFoundError(parent)
+        if self.nodes.get(path) is DIR:
+            raise IsADirectoryError(path)
+        if "w" in mode:
+            existed = path in self.nodes
+            self.nodes[path] = File([])
+            self._effect("truncate" if existed else "create", path)
+        elif "a" in mode:
+            if path not in self.nodes:
+                self.nodes[path] = File([])
+                self._effect("create", path)
+        elif "x" in mode:
+            if path in self.nodes:
+                raise FileExistsError(path)
+            self.nodes[path] = File([])
+            self._effect("create", path)
+        f = SymFile(self, path, mode, None)
+        self.open_files.append(f)
+        return f
+
+    # -- numpy / pickle / yaml hooks ------------------------------------------------------------------------------
+    def tofile(self, arr, f):
+        if isinstance(f, (str, SymPath)):
+            with self.open(str(f), "wb") as g:
+                g._os_write(("arr", arr))
+            return
+        f.flush()
+        f._os_write(("arr", arr))
+
+    def fromfile(self, f, dtype):
+        if isinstance(f, (str, SymPath)):
+            f = self.open(str(f), "rb")
+        return f.read_array(dtype)
+
+    def pickle_dump(self, obj, f):
+        f.write_part(("pickle", obj))
+
+    def pickle_load(self, f):
+        return f.read_pickle()
+
+    def yaml_load(self, f):
+        return f.read_yaml()
+
+    def loadtxt(self, path):
+        raise Unsupported("np.loadtxt on the symbolic file system")
+
+
+def norm(p):
+    p = posixpath.normpath(str(p))
+    return p
+
+
+class SymFile:
+    vc_file = True
+
+    def __init__(self, fs, path, mode, read_parts):
+        self.fs, self.path, self.mode = fs, path, mode
+        self.pending = []
+        self.read_parts = read_parts
+        self.pos = 0
+        self.closed = False
+
+    # -- writing
+    def _os_write(self, part):
+        n = self.fs.nodes.get(self.path)
+        if n is None or n is DIR:
+            raise Unsupported("write to a file that was removed while open")
+        n.parts.append(part)
+        self.fs._effect("write", self.path, part[0])
+
+    def write_part(self, part):
+        if self.read_parts is not None:
+            raise OSError("file not open for writing")
+        self.pending.append(part)
+
+    def write(self, data):
+        if hasattr(data, "vc_bytes_part"):
+            self.write_part(data.vc_bytes_part())
+        elif isinstance(data, (bytes, bytearray)):
+            if len(data) == 1:
+                self.write_part(("byte", data[0]))
+            else:
+                self.write_part(("bytes", "raw", bytes(data)))
+        elif isinstance(data, str):
+            self.write_part(("text", data))
+        else:
+            raise Unsupported(f"write of {type(data).__name__}")
+        return 1
+
+    def flush(self):
+        pend, self.pending = self.pending, []
+        for p in pend:
+            self._os_write(p)
+
+    def close(self):
+        if self.closed:
+            return
+        if self.read_parts is None:
+            self.flush()
+        self.closed = True
+        if self in self.fs.open_files:
+            self.fs.open_files.remove(self)
+
+    def __enter__(self):
+        return self
+
+    def __exit__(self, *a):
+        self.close()
+        return False
+
+    # -- reading
+    def _next(self):
+        if self.read_parts is None:
+            raise OSError("file not open for reading")
+        if self.pos >= len(self.read_parts):
+            return None
+        p = self.read_parts[self.pos]
+        self.pos += 1
+        return p
+
+    def read(self, n=-1):
+        if n == 1:
+            p = self._next()
+            if p is None:
+                return ByteVal(None)          # b"" at end of file
+            if p[0] == "byte":
+                return ByteVal(p[1])
+            if p[0] == "bytes":
+                return ByteVal(p[2], tag=p[1])
+            if p[0] == "partial":
+                return ByteVal(None, partial=True)
+            raise Unsupported(f"read(1) hits a '{p[0]}' part")
+        raise Unsupported("read(n) with n != 1 on the symbolic file system")
+
+    def readline(self):
+        raise Unsupported("readline on the symbolic file system")
+
+    def read_array(self, dtype):
+        """np.fromfile(f): the rest of the file interpreted as an array"""
+        import numpy as np
+        rest = self.read_parts[self.pos:]
+        self.pos = len(self.read_parts)
+        if not rest:
+            return np.empty(0, dtype=dtype)
+        if len(rest) == 1 and rest[0][0] == "arr":
+            return rest[0][1]
+        if all(p[0] == "arr" for p in rest):
+            from . import npshim
+            return npshim.concatenate([p[1] for p in rest])
+        if any(p[0] == "partial" for p in rest):
+            return PartialArray(rest)
+        raise Unsupported(f"np.fromfile over parts {[p[0] for p in rest]}")
+
+    def read_pickle(self):
+        p = self._next()
+        if p is None:
+            raise EOFError("Ran out of input")
+        if p[0] == "pickle":
+            return p[1]
+        if p[0] == "partial":
+            import pickle
+            Ctx.cur.trust("pickle: loading a strict prefix of a pickle raises")
+            raise pickle.UnpicklingError("pickle data was truncated")
+        import pickle
+        raise pickle.UnpicklingError(f"invalid load key ({p[0]})")
+
+    def read_yaml(self):
+        p = self._next()
+        if p is None:
+            return None                      # yaml.safe_load of an empty file
+        if p[0] == "text":
+            doc = p[1]
+            if hasattr(doc, "obj"):
+                return _yaml_roundtrip(doc.obj)
+            import yaml as _yaml
+            return _yaml.safe_load(doc)
+        if p[0] == "partial":
+            return TruncatedYaml(p[1])
+        raise Unsupported(f"yaml.safe_load hits a '{p[0]}' part")
+
+
+def _yaml_roundtrip(obj):
+    """ASSUMED: yaml.safe_load(safe_dump_all([obj])) == obj for native python data (fresh copies of containers)"""
+    Ctx.cur.trust("PyYAML: safe_load(safe_dump_all([obj])) == obj for dict/list/str/int/float/None")
+    return copy.copy(obj) if isinstance(obj, dict) else obj
+
+
+class TruncatedYaml:
+    """result of parsing a truncated YAML document: *anything* (a truncated document may still parse) - every use
+    is a fork point the crash obligations must survive; modelled as an opaque value that is not a dict"""
+
+    def __init__(self, part):
+        self.part = part
+
+
+class PartialArray:
+    def __init__(self, parts):
+        self.parts = parts
+
+
+class ByteVal:
+    """one byte read from a file"""
+
+    def __init__(self, value, tag=None, partial=False):
+        self.value, self.tag, self.partial = value, tag, partial
+
+    def vc_int_from_bytes(self, byteorder):
+        if self.partial:
+            raise Unsupported("header byte of a partially written file")
+        if self.value is None:
+            return 0                         # int.from_bytes(b"") == 0
+        if self.tag is not None:
+            raise Unsupported("int.from_bytes of an opaque byte string")
+        v = self.value
+        if isinstance(v, SBool):
+            from .core import to_term
+            return SNum(to_term(v))
+        return v
+
+
+class BytePart:
+    """int.to_bytes(1) of a (possibly symbolic) small integer"""
+
+    def __init__(self, value):
+        self.value = value
+
+    def vc_bytes_part(self):
+        return ("byte", self.value)
+
+
+class SymPath:
+    """pathlib.Path over the symbolic file system (only what the repository uses)"""
+
+    def __init__(self, *parts):
+        self._p = norm(posixpath.join(*[str(p) for p in parts])) if parts else "."
+
+    def __truediv__(self, other):
+        return SymPath(self._p, str(other))
+
+    def __str__(self):
+        return self._p
+
+    def __fspath__(self):
+        return self._p
+
+    def __repr__(self):
+        return f"SymPath({self._p!r})"
+
+    def __eq__(self, o):
+        return isinstance(o, SymPath) and o._p == self._p
+
+    def __hash__(self):
+        return hash(self._p)
+
+    @property
+    def name(self):
+        return posixpath.basename(self._p)
+
+    @property
+    def suffix(self):
+        return posixpath.splitext(self._p)[1]
+
+    @property
+    def parent(self):
+        return SymPath(posixpath.dirname(self._p))
+
+    def with_suffix(self, suffix):
+        return SymPath(posixpath.splitext(self._p)[0] + suffix)
+
+    def _fs(self):
+        fs = Ctx.cur.ghost.get("fs")
+        if fs is None:
+            raise Unsupported("symbolic path used without a symbolic file system")
+        return fs
+
+    def exists(self):
+        return self._fs().exists(self._p)
+
+    def is_dir(self):
+        return self._fs().is_dir(self._p)
+
+    def mkdir(self, mode=0o777, parents=False, exist_ok=False):
+        return self._fs().mkdir(self._p, parents=parents, exist_ok=exist_ok)
+
+    def open(self, mode="r", *a, **k):
+        return self._fs().open(self._p, mode)
+
+    def unlink(self, missing_ok=False):
+        try:
+            return self._fs().unlink(self._p)
+        except FileNotFoundError:
+            if not missing_ok:
+                raise
+
+    def iterdir(self):
+        return iter(SymPath(c) for c in self._fs().children(self._p))
+
+    def replace(self, target):
+        self._fs().rename(self._p, str(target))
+        return SymPath(str(target))
+
+    rename = replace
